@@ -12,6 +12,7 @@ HOOKS = {
     "lib":    ("lib.rs",                                  "h_lib.rs",    "verif_lib"),
     "data":   ("data.rs",                                 "h_data.rs",   "verif_data"),
     "enc":    ("encodation/mod.rs",                       "h_enc.rs",    "verif_enc"),
+    "b256":   ("encodation/base256.rs",                   "h_b256.rs",   "verif_b256"),
     "plan":   ("encodation/planner/mod.rs",               "h_plan.rs",   "verif_plan"),
     "dec":    ("decodation/mod.rs",                       "h_dec.rs",    "verif_dec"),
     "eci":    ("decodation/eci.rs",                       "h_eci.rs",    "verif_eci"),
